@@ -176,6 +176,7 @@ structure St where
   parMeta : Nat := 2
   mayStartI : Bool := false            -- startInfoDownloaders ran in this op
   metaDone : Bool := false             -- completeMetadataC closed
+  dials : Nat := 0                     -- outgoing connection attempts seen by the harness's sink address
   banned : List String := []
   panicked : Option String := none
   -- gates (held by the harness)
@@ -708,6 +709,27 @@ def handleMetadataData (m : M) (k i len : Nat) (good : Bool) : M :=
 /-- metadata reject from the peer we are downloading from -/
 def handleMetadataReject (m : M) (k : Nat) : M :=
   if (m.1.idls.any (·.k = k)) then onSt (closePeerM m k) fun s => { s with mayStartI := !s.info } else m
+
+/-- `handleNewPeers(addrs, source)` for a batch that contains the harness's sink address (a loopback
+address nobody is connected to): the address is pushed and dialled at once. -/
+def handleNewPeers (m : M) (nonEmpty : Bool) : M :=
+  let s := m.1
+  if s.status = .stopped || s.status = .stopping then m
+  else if s.completed then m
+  else if nonEmpty then onSt m fun s => { s with dials := s.dials + 1 } else m
+
+/-- Incoming PEX message.  A private torrent ignores it (fix for finding C19-F1). -/
+def handlePex (m : M) (added dropped : Bool) : M :=
+  if !m.1.cfg.pex then m
+  else if m.1.info && m.1.cfg.isPrivate then m
+  else
+    let m := handleNewPeers m added
+    -- the second batch finds the address already being dialled
+    if added then m else handleNewPeers m dropped
+
+/-- A DHT result delivered to the torrent.  A private torrent ignores it (fix for finding C19-F1). -/
+def handleDhtPeers (m : M) (nonEmpty : Bool) : M :=
+  if m.1.info && m.1.cfg.isPrivate then m else handleNewPeers m nonEmpty
 
 /-- `handlePeerSnubbed(pe)` -/
 def handlePeerSnubbed (m : M) (k : Nat) : M :=
